@@ -10,6 +10,7 @@ package main
 
 import (
 	"bufio"
+	"context"
 	"crypto/sha256"
 	"encoding/hex"
 	"encoding/json"
@@ -630,7 +631,11 @@ func check(id, tier string) int {
 		if tier == "thorough" {
 			budget = "60s"
 		}
-		cmd := exec.Command(bin, "-test.run", "^TestWorker$", "-test.timeout", "1h", "-sim.shrink", raw, "-sim.shrinkout", path, "-sim.shrinkbudget", budget)
+		// a shrinking candidate may run into a CPU loop of the code under
+		// test, which no budget inside the worker can interrupt: the whole
+		// minimisation gets a hard wall-clock limit
+		shrinkCtx, cancelShrink := context.WithTimeout(context.Background(), 3*time.Minute)
+		cmd := exec.CommandContext(shrinkCtx, bin, "-test.run", "^TestWorker$", "-test.timeout", "1h", "-sim.shrink", raw, "-sim.shrinkout", path, "-sim.shrinkbudget", budget)
 		cmd.Dir = scratch
 		cmd.Env = goEnv()
 		if strings.HasPrefix(c, "cpu-hang@") {
@@ -644,6 +649,7 @@ func check(id, tier string) int {
 			os.WriteFile(path, bi, 0o644)
 			fmt.Fprintf(os.Stderr, "check: minimisation failed (%v), kept the original run as replay\n%s\n", err, tail(string(out), 800))
 		}
+		cancelShrink()
 		// verify the replay in a fresh process
 		ok, same, _ := replayOnce(bin, scratch, path)
 		if !ok || !same {
@@ -753,10 +759,12 @@ func replayOnce(bin, scratch, path string) (reproduced, traceEqual bool, out str
 		var rf ReplayFile
 		rb, _ := os.ReadFile(path)
 		json.Unmarshal(rb, &rf)
-		if json.Unmarshal(hb, &h) == nil && rf.Class == "cpu-hang@"+h.Site {
-			return true, true, "replay: the run hangs again in " + h.Site
+		// where the wall-clock watchdog finds the spinning goroutine is a
+		// matter of sampling: the class is "the run makes no progress"
+		if json.Unmarshal(hb, &h) == nil && strings.HasPrefix(rf.Class, "cpu-hang@") {
+			return true, true, "replay: the run hangs again (in " + h.Site + ")"
 		}
-		return false, false, "replay: the run hangs, but somewhere else: " + h.Site
+		return false, false, "replay: the run hangs (in " + h.Site + "); the recorded violation was " + rf.Class
 	}
 	// the JSON document is the first thing printed
 	i := strings.Index(out, "{")
